@@ -20,6 +20,9 @@ CONSTANTS Emitters, RecsPer, QCap, Batch, BufSize, Flushers, Stoppers,
           Faults,       \* TRUE: the user exporter may fail an Export
           Ticker,       \* TRUE: the poll ticker may fire at any time
           CloneOnEmit,  \* TRUE: OnEmit enqueues r.Clone() (the code); FALSE: mutation "missing clone"
+          ChunkAbort,   \* TRUE: chunkExporter may stop at the first failed chunk (the tree before fix c97476e, deviation D2)
+          FixStopDone,  \* TRUE: sketched repair A (see "Sketched repairs" below); FALSE: the code as it is
+          FixClosed,    \* TRUE: sketched repair B; FALSE: the code as it is
           Admit         \* set of named deviations admitted by Contract (Known = the code as it is; see below)
 
 VARIABLES q,         \* ring queue contents, oldest first: sequence of [id, c]
@@ -39,9 +42,11 @@ VARIABLES q,         \* ring queue contents, oldest first: sequence of [id, c]
           sbatch,    \* records Shutdown took out with q.Flush()
           serr,      \* error Shutdown will return ("" | "err")
           caller,    \* id -> version of the caller's own record ("v0" at Emit, "v1" after it mutated it)
+          qclosed,   \* repair B only: the queue refuses records (set by q.Flush() under the queue lock)
+          stopDone,  \* repair A only: channel closed by the Shutdown that did the work, just before it returns
           mon        \* monitor record
-vars == <<q, dropped, trig, kill, stopped, input, inputMu, xstopped, closed, resp, pc, eidx, plen, cur, sbatch, serr, caller, mon>>
-proto == <<q, dropped, trig, kill, stopped, input, inputMu, xstopped, closed, resp, eidx, plen, cur, sbatch, serr, caller>>
+vars == <<q, dropped, trig, kill, stopped, input, inputMu, xstopped, closed, resp, pc, eidx, plen, cur, sbatch, serr, caller, qclosed, stopDone, mon>>
+proto == <<q, dropped, trig, kill, stopped, input, inputMu, xstopped, closed, resp, eidx, plen, cur, sbatch, serr, caller, qclosed, stopDone>>
 
 Ids == Emitters \X (1..RecsPer)
 Procs == Emitters \cup Flushers \cup Stoppers \cup {"poll", "x"}
@@ -51,17 +56,22 @@ Min(a, b) == IF a < b THEN a ELSE b
 IdsOf(s) == {s[i].id : i \in 1..Len(s)}
 Drop(s, n) == SubSeq(s, n + 1, Len(s))
 
+(* initial values as a record: Trace_BatchLPImpl.tla re-initialises with it between recorded scenarios *)
+I0 == [q |-> <<>>, dropped |-> 0, trig |-> FALSE, kill |-> FALSE, stopped |-> FALSE,
+       input |-> <<>>, inputMu |-> "none", xstopped |-> FALSE, closed |-> FALSE,
+       resp |-> [c \in Callers |-> "none"],
+       pc |-> [p \in Procs |-> IF p = "poll" THEN "select" ELSE IF p = "x" THEN "recv" ELSE "idle"],
+       eidx |-> [g \in Emitters |-> 1], plen |-> 0, cur |-> NoItem, sbatch |-> <<>>, serr |-> "",
+       caller |-> [id \in Ids |-> "v0"], qclosed |-> FALSE, stopDone |-> FALSE,
+       mon |-> [inflight |-> <<>>, handed |-> [id \in Ids |-> 0], last |-> [g \in Emitters |-> 0],
+                overwritten |-> {}, ignored |-> {}, aborted |-> {}, sdheld |-> {}, returned |-> {}, flushed |-> FALSE, tooLate |-> {},
+                snap |-> [c \in Callers |-> {}], early |-> [c \in Callers |-> "no"],
+                shutRet |-> "no", logged |-> 0, bad |-> {}]]
 Init ==
-  /\ q = <<>> /\ dropped = 0 /\ trig = FALSE /\ kill = FALSE /\ stopped = FALSE
-  /\ input = <<>> /\ inputMu = "none" /\ xstopped = FALSE /\ closed = FALSE
-  /\ resp = [c \in Callers |-> "none"]
-  /\ pc = [p \in Procs |-> IF p = "poll" THEN "select" ELSE IF p = "x" THEN "recv" ELSE "idle"]
-  /\ eidx = [g \in Emitters |-> 1] /\ plen = 0 /\ cur = NoItem /\ sbatch = <<>> /\ serr = ""
-  /\ caller = [id \in Ids |-> "v0"]
-  /\ mon = [inflight |-> <<>>, handed |-> [id \in Ids |-> 0], last |-> [g \in Emitters |-> 0],
-            overwritten |-> {}, ignored |-> {}, aborted |-> {}, sdheld |-> {}, returned |-> {}, raced |-> {},
-            snap |-> [c \in Callers |-> {}], early |-> [c \in Callers |-> "no"],
-            sdCalled |-> FALSE, shutRet |-> "no", logged |-> 0, bad |-> {}]
+  /\ q = I0.q /\ dropped = I0.dropped /\ trig = I0.trig /\ kill = I0.kill /\ stopped = I0.stopped
+  /\ input = I0.input /\ inputMu = I0.inputMu /\ xstopped = I0.xstopped /\ closed = I0.closed
+  /\ resp = I0.resp /\ pc = I0.pc /\ eidx = I0.eidx /\ plen = I0.plen /\ cur = I0.cur /\ sbatch = I0.sbatch
+  /\ serr = I0.serr /\ caller = I0.caller /\ qclosed = I0.qclosed /\ stopDone = I0.stopDone /\ mon = I0.mon
 
 Go(p, l) == pc' = [pc EXCEPT ![p] = l]
 
@@ -71,38 +81,49 @@ ECheck(g) == /\ pc[g] = "check"
              /\ IF stopped THEN (Go(g, "ret") /\ mon' = [mon EXCEPT !.ignored = @ \cup {<<g, eidx[g]>>}])
                            ELSE (Go(g, "enq") /\ UNCHANGED mon)
              /\ UNCHANGED proto
-(* q.Enqueue(r.Clone()) under the queue lock: a full ring overwrites the OLDEST record *)
+(* q.Enqueue(r.Clone()) under the queue lock: a full ring overwrites the OLDEST record.                  *)
+(* Repair B: a queue that q.Flush() has closed refuses the record -- it is ignored knowingly, exactly   *)
+(* like a record whose OnEmit found `stopped` set, instead of being stranded in the ring.               *)
 EEnqueue(g) ==
   /\ pc[g] = "enq"
   /\ LET e == [id |-> <<g, eidx[g]>>, c |-> IF CloneOnEmit THEN "v0" ELSE "ref"]
          full == Len(q) = QCap
          q2 == IF full THEN Append(Tail(q), e) ELSE Append(q, e) IN
-     /\ q' = q2
-     /\ dropped' = IF full THEN dropped + 1 ELSE dropped
-     /\ mon' = IF full THEN [mon EXCEPT !.overwritten = @ \cup {Head(q).id}] ELSE mon
-     /\ Go(g, IF Len(q2) >= Batch THEN "trig" ELSE "ret")
-  /\ UNCHANGED <<trig, kill, stopped, input, inputMu, xstopped, closed, resp, eidx, plen, cur, sbatch, serr, caller>>
+     IF FixClosed /\ qclosed
+       THEN /\ mon' = [mon EXCEPT !.ignored = @ \cup {e.id}] /\ Go(g, "ret") /\ UNCHANGED <<q, dropped>>
+       ELSE /\ q' = q2
+            /\ dropped' = IF full THEN dropped + 1 ELSE dropped
+            /\ mon' = [mon EXCEPT !.overwritten = IF full THEN @ \cup {Head(q).id} ELSE @,
+                                   !.tooLate = IF mon.flushed THEN @ \cup {e.id} ELSE @]
+            /\ Go(g, IF Len(q2) >= Batch THEN "trig" ELSE "ret")
+  /\ UNCHANGED <<trig, kill, stopped, input, inputMu, xstopped, closed, resp, eidx, plen, cur, sbatch, serr, caller, qclosed, stopDone>>
 ETrigger(g) == /\ pc[g] = "trig" /\ trig' = TRUE /\ Go(g, "ret")    \* non-blocking send, capacity 1
-               /\ UNCHANGED <<q, dropped, kill, stopped, input, inputMu, xstopped, closed, resp, eidx, plen, cur, sbatch, serr, caller, mon>>
+               /\ UNCHANGED <<q, dropped, kill, stopped, input, inputMu, xstopped, closed, resp, eidx, plen, cur, sbatch, serr, caller, qclosed, stopDone, mon>>
 (* Emit returns; from now on the caller may change its own record (merged into this step) *)
 ERet(g) == /\ pc[g] = "ret" /\ Go(g, "idle")
            /\ LET id == <<g, eidx[g]>> IN
-              /\ mon' = [mon EXCEPT !.returned = @ \cup {id}, !.raced = IF mon.sdCalled THEN @ \cup {id} ELSE @]
+              /\ mon' = [mon EXCEPT !.returned = @ \cup {id}]
               /\ caller' = [caller EXCEPT ![id] = "v1"]
            /\ eidx' = [eidx EXCEPT ![g] = @ + 1]
-           /\ UNCHANGED <<q, dropped, trig, kill, stopped, input, inputMu, xstopped, closed, resp, plen, cur, sbatch, serr>>
+           /\ UNCHANGED <<q, dropped, trig, kill, stopped, input, inputMu, xstopped, closed, resp, plen, cur, sbatch, serr, qclosed, stopDone>>
 
 (* ---------------------------------------------------------------- poll goroutine *)
 PollTick == /\ Ticker /\ pc["poll"] = "select" /\ Go("poll", "work") /\ UNCHANGED <<proto, mon>>
 PollTrig == /\ pc["poll"] = "select" /\ trig /\ trig' = FALSE /\ Go("poll", "work")
-            /\ UNCHANGED <<q, dropped, kill, stopped, input, inputMu, xstopped, closed, resp, eidx, plen, cur, sbatch, serr, caller, mon>>
+            /\ UNCHANGED <<q, dropped, kill, stopped, input, inputMu, xstopped, closed, resp, eidx, plen, cur, sbatch, serr, caller, qclosed, stopDone, mon>>
 PollKill == /\ pc["poll"] = "select" /\ kill /\ Go("poll", "done") /\ UNCHANGED <<proto, mon>>
-(* q.Dropped() (warn log), exporter.Ready(); when not ready qLen = q.Len() *)
-PollReady == /\ pc["poll"] = "work"
-             /\ dropped' = 0 /\ mon' = [mon EXCEPT !.logged = @ + dropped]
-             /\ IF Len(input) < BufSize THEN (Go("poll", "deq") /\ UNCHANGED plen)
-                                        ELSE (Go("poll", "retrig") /\ plen' = Len(q))
-             /\ UNCHANGED <<q, trig, kill, stopped, input, inputMu, xstopped, closed, resp, eidx, cur, sbatch, serr, caller>>
+(* q.Dropped(): atomic swap of the overwrite counter, reported by the "dropped log records" warning.   *)
+(* A separate step from Ready(): the recorded traces show overwrites (and buffer changes) between the *)
+(* two (learnt from the implementation-level trace validation, see docs/notes/C06.md).                 *)
+PollDropped == /\ pc["poll"] = "work" /\ Go("poll", "ready")
+               /\ dropped' = 0 /\ mon' = [mon EXCEPT !.logged = @ + dropped]
+               /\ UNCHANGED <<q, trig, kill, stopped, input, inputMu, xstopped, closed, resp, eidx, plen, cur, sbatch, serr, caller, qclosed, stopDone>>
+(* exporter.Ready() = the input channel is not full *)
+PollReady == /\ pc["poll"] = "ready" /\ Go("poll", IF Len(input) < BufSize THEN "deq" ELSE "len") /\ UNCHANGED <<proto, mon>>
+(* not ready: qLen = q.Len() under the queue lock -- a later moment than Ready(): a recorded trace shows the export  *)
+(* goroutine emptying the buffer and an Enqueue between the two reads (found by Trace_BatchLPImpl.tla)               *)
+PollLen == /\ pc["poll"] = "len" /\ plen' = Len(q) /\ Go("poll", "retrig")
+           /\ UNCHANGED <<q, dropped, trig, kill, stopped, input, inputMu, xstopped, closed, resp, eidx, cur, sbatch, serr, caller, qclosed, stopDone, mon>>
 (* TryDequeue(buf[:Batch], EnqueueExport): copy out, offer to the buffer inside the queue lock, commit only on success *)
 PollDequeue ==
   /\ pc["poll"] = "deq"
@@ -114,10 +135,10 @@ PollDequeue ==
                ELSE /\ input' = Append(input, [recs |-> SubSeq(q, 1, n), resp |-> "none"])
                     /\ q' = Drop(q, n)
   /\ plen' = Len(q') /\ Go("poll", "retrig")
-  /\ UNCHANGED <<dropped, trig, kill, stopped, inputMu, xstopped, closed, resp, eidx, cur, sbatch, serr, caller, mon>>
+  /\ UNCHANGED <<dropped, trig, kill, stopped, inputMu, xstopped, closed, resp, eidx, cur, sbatch, serr, caller, qclosed, stopDone, mon>>
 PollRetrig == /\ pc["poll"] = "retrig"
               /\ trig' = (trig \/ plen >= Batch) /\ plen' = 0 /\ Go("poll", "select")
-              /\ UNCHANGED <<q, dropped, kill, stopped, input, inputMu, xstopped, closed, resp, eidx, cur, sbatch, serr, caller, mon>>
+              /\ UNCHANGED <<q, dropped, kill, stopped, input, inputMu, xstopped, closed, resp, eidx, cur, sbatch, serr, caller, qclosed, stopDone, mon>>
 
 (* ---------------------------------------------------------------- export goroutine (exportSync) *)
 Respond(r, val) == IF r = "none" THEN resp ELSE [resp EXCEPT ![r] = val]
@@ -126,7 +147,7 @@ XRecv == /\ pc["x"] = "recv" /\ input # <<>>
          /\ IF Head(input).recs = <<>>
               THEN (resp' = Respond(Head(input).resp, "ok") /\ UNCHANGED <<pc, cur>>)     \* flush marker
               ELSE (cur' = [recs |-> Head(input).recs, resp |-> Head(input).resp, err |-> FALSE] /\ Go("x", "chunk") /\ UNCHANGED resp)
-         /\ UNCHANGED <<q, dropped, trig, kill, stopped, inputMu, xstopped, closed, eidx, plen, sbatch, serr, caller, mon>>
+         /\ UNCHANGED <<q, dropped, trig, kill, stopped, inputMu, xstopped, closed, eidx, plen, sbatch, serr, caller, qclosed, stopDone, mon>>
 XDone == /\ pc["x"] = "recv" /\ input = <<>> /\ closed /\ Go("x", "done") /\ UNCHANGED <<proto, mon>>
 Content(e) == IF e.c = "ref" THEN caller[e.id] ELSE e.c
 Chunk == SubSeq(cur.recs, 1, Min(Batch, Len(cur.recs)))
@@ -150,10 +171,9 @@ XBegin ==
                        ELSE IF Late(mon, ch) # {} THEN {"D6-final-flush-overtaken"} ELSE {})
                  \cup (IF \E i \in 1..Len(ch) : Content(ch[i]) # "v0" THEN {"content-changed"} ELSE {})]
   /\ UNCHANGED proto
-(* Export returns.  ok: go on with the next chunk.  Error: the pinned chunkExporter stops at the first   *)
-(* failed chunk and the remaining chunks are never attempted (abort = TRUE, deviation D2); with            *)
-(* proposed_fixes/C06-chunk-continue-after-error.diff it goes on and joins the errors (abort = FALSE).      *)
-(* The model admits both, so it describes the tree before and after that fix.                              *)
+(* Export returns.  ok: go on with the next chunk.  Error: the pinned chunkExporter stopped at the first  *)
+(* failed chunk and the remaining chunks were never attempted (abort = TRUE, deviation D2, only with       *)
+(* ChunkAbort); since fix c97476e it goes on and joins the errors (abort = FALSE).                          *)
 XEnd(ok, abort) ==
   /\ pc["x"] = "exporting" /\ (ok => ~abort)
   /\ LET rest == Drop(cur.recs, Len(Chunk))
@@ -164,24 +184,29 @@ XEnd(ok, abort) ==
        ELSE /\ cur' = NoItem /\ Go("x", "recv")
             /\ resp' = Respond(cur.resp, IF failed THEN "err" ELSE "ok")
             /\ mon' = [mon EXCEPT !.inflight = <<>>, !.aborted = @ \cup IdsOf(rest)]
-  /\ UNCHANGED <<q, dropped, trig, kill, stopped, input, inputMu, xstopped, closed, eidx, plen, sbatch, serr, caller>>
+  /\ UNCHANGED <<q, dropped, trig, kill, stopped, input, inputMu, xstopped, closed, eidx, plen, sbatch, serr, caller, qclosed, stopDone>>
 
 (* ---------------------------------------------------------------- flushers *)
+(* the record was enqueued after the final q.Flush(): it sits in the ring for good, or a ForceFlush that was  *)
+(* past its check takes it out and EnqueueExport swallows it ("true") because the buffer has been stopped      *)
+Stranded(id) == id \in mon.tooLate
 Missing(S) == {id \in S : mon.handed[id] = 0 /\ id \notin mon.overwritten /\ id \notin mon.ignored}
 (* why a record emitted before the ForceFlush call has not been handed over when it returns nil *)
 FCause(f, id) == IF mon.early[f] = "processor" THEN "D1-flush-during-shutdown"
                  ELSE IF mon.early[f] = "exporter" THEN "D3-flush-exporter-stopped"
                  ELSE IF id \in mon.aborted THEN "D2-chunk-aborted"
                  ELSE IF id \in mon.sdheld THEN "D5-flush-overtakes-final-flush"
+                 ELSE IF Stranded(id) THEN "D4-enqueue-after-final-flush"  \* only with repair A: seen by a ForceFlush that waited
                  ELSE "flush-missed"
-SCause(s, id) == IF id \in mon.raced /\ id \notin mon.sdheld THEN "D4-enqueue-after-final-flush"
+SCause(s, id) == IF Stranded(id) THEN "D4-enqueue-after-final-flush"
                  ELSE IF mon.early[s] = "processor" THEN "D1-shutdown-during-shutdown"
                  ELSE IF id \in mon.aborted THEN "D2-chunk-aborted"
                  ELSE "shutdown-missed"
 FCall(f) == /\ pc[f] = "idle" /\ Go(f, "check")
             /\ mon' = [mon EXCEPT !.snap[f] = mon.returned] /\ UNCHANGED proto
 FCheck(f) == /\ pc[f] = "check"
-             /\ IF stopped THEN (Go(f, "ret") /\ mon' = [mon EXCEPT !.early[f] = "processor"])
+             /\ IF stopped THEN (IF FixStopDone THEN (Go(f, "sdwait") /\ UNCHANGED mon)
+                                                 ELSE (Go(f, "ret") /\ mon' = [mon EXCEPT !.early[f] = "processor"]))
                            ELSE (Go(f, "deq") /\ UNCHANGED mon)
              /\ UNCHANGED proto
 (* the loop `for notFlushed()`: TryDequeue(buf[:q.cap], EnqueueExport) until it succeeds once (callers' *)
@@ -193,54 +218,64 @@ FDequeue(f) ==
      \/ /\ q # <<>> /\ inputMu = "none" /\ ~xstopped /\ Len(input) < BufSize
         /\ input' = Append(input, [recs |-> q, resp |-> "none"]) /\ q' = <<>>
   /\ Go(f, "mlock")
-  /\ UNCHANGED <<dropped, trig, kill, stopped, inputMu, xstopped, closed, resp, eidx, plen, cur, sbatch, serr, caller, mon>>
+  /\ UNCHANGED <<dropped, trig, kill, stopped, inputMu, xstopped, closed, resp, eidx, plen, cur, sbatch, serr, caller, qclosed, stopDone, mon>>
 (* bufferExporter.ForceFlush -> enqueue(marker): lock inputMu, check stopped, blocking send, unlock *)
 FMLock(f) == /\ pc[f] = "mlock" /\ inputMu = "none"
-             /\ IF xstopped THEN (Go(f, "ret") /\ mon' = [mon EXCEPT !.early[f] = "exporter"] /\ UNCHANGED inputMu)
+             /\ IF xstopped THEN (IF FixStopDone THEN (Go(f, "sdwait") /\ UNCHANGED <<mon, inputMu>>)
+                                                  ELSE (Go(f, "ret") /\ mon' = [mon EXCEPT !.early[f] = "exporter"] /\ UNCHANGED inputMu))
                             ELSE (Go(f, "msend") /\ inputMu' = f /\ UNCHANGED mon)
-             /\ UNCHANGED <<q, dropped, trig, kill, stopped, input, xstopped, closed, resp, eidx, plen, cur, sbatch, serr, caller>>
+             /\ UNCHANGED <<q, dropped, trig, kill, stopped, input, xstopped, closed, resp, eidx, plen, cur, sbatch, serr, caller, qclosed, stopDone>>
 FMSend(f) == /\ pc[f] = "msend" /\ Len(input) < BufSize
              /\ input' = Append(input, [recs |-> <<>>, resp |-> f]) /\ inputMu' = "none" /\ Go(f, "mwait")
-             /\ UNCHANGED <<q, dropped, trig, kill, stopped, xstopped, closed, resp, eidx, plen, cur, sbatch, serr, caller, mon>>
-(* marker answered, then the user exporter's ForceFlush *)
-FMWait(f) == /\ pc[f] = "mwait" /\ resp[f] # "none" /\ Go(f, "ret") /\ UNCHANGED <<proto, mon>>
+             /\ UNCHANGED <<q, dropped, trig, kill, stopped, xstopped, closed, resp, eidx, plen, cur, sbatch, serr, caller, qclosed, stopDone, mon>>
+(* marker answered, then the user exporter's ForceFlush.  Repair A: look at `stopped` once more *)
+FMWait(f) == /\ pc[f] = "mwait" /\ resp[f] # "none" /\ Go(f, IF FixStopDone /\ stopped THEN "sdwait" ELSE "ret")
+             /\ UNCHANGED <<proto, mon>>
+(* repair A only: wait until the Shutdown that is doing the work has finished *)
+FWaitDone(f) == /\ pc[f] = "sdwait" /\ stopDone /\ Go(f, "ret") /\ UNCHANGED <<proto, mon>>
 FRet(f) == /\ pc[f] = "ret" /\ Go(f, "done")
            /\ mon' = [mon EXCEPT !.bad = @ \cup {FCause(f, id) : id \in Missing(mon.snap[f])}]
            /\ UNCHANGED proto
 
 (* ---------------------------------------------------------------- stoppers *)
 SCall(s) == /\ pc[s] = "idle" /\ Go(s, "swap")
-            /\ mon' = [mon EXCEPT !.snap[s] = mon.returned, !.sdCalled = TRUE] /\ UNCHANGED proto
+            /\ mon' = [mon EXCEPT !.snap[s] = mon.returned] /\ UNCHANGED proto
 SSwap(s) == /\ pc[s] = "swap"
-            /\ IF stopped THEN (Go(s, "ret") /\ mon' = [mon EXCEPT !.early[s] = "processor"] /\ UNCHANGED stopped)
+            /\ IF stopped THEN (IF FixStopDone THEN (Go(s, "sdwait") /\ UNCHANGED <<mon, stopped>>)
+                                                ELSE (Go(s, "ret") /\ mon' = [mon EXCEPT !.early[s] = "processor"] /\ UNCHANGED stopped))
                           ELSE (stopped' = TRUE /\ Go(s, "kill") /\ UNCHANGED mon)
-            /\ UNCHANGED <<q, dropped, trig, kill, input, inputMu, xstopped, closed, resp, eidx, plen, cur, sbatch, serr, caller>>
+            /\ UNCHANGED <<q, dropped, trig, kill, input, inputMu, xstopped, closed, resp, eidx, plen, cur, sbatch, serr, caller, qclosed, stopDone>>
 SKill(s) == /\ pc[s] = "kill" /\ kill' = TRUE /\ Go(s, "waitpoll")
-            /\ UNCHANGED <<q, dropped, trig, stopped, input, inputMu, xstopped, closed, resp, eidx, plen, cur, sbatch, serr, caller, mon>>
+            /\ UNCHANGED <<q, dropped, trig, stopped, input, inputMu, xstopped, closed, resp, eidx, plen, cur, sbatch, serr, caller, qclosed, stopDone, mon>>
 SWaitPoll(s) == /\ pc[s] = "waitpoll" /\ pc["poll"] = "done" /\ Go(s, "flush") /\ UNCHANGED <<proto, mon>>
 (* exporter.Export(ctx, q.Flush()): Flush under the queue lock, then (unless empty) enqueue with a   *)
 (* blocking send under inputMu and wait for the answer of the export goroutine                       *)
 SFlush(s) == /\ pc[s] = "flush"
              /\ sbatch' = q /\ q' = <<>> /\ Go(s, IF q = <<>> THEN "xshut" ELSE "elock")
-             /\ mon' = [mon EXCEPT !.sdheld = IdsOf(q)]
-             /\ UNCHANGED <<dropped, trig, kill, stopped, input, inputMu, xstopped, closed, resp, eidx, plen, cur, serr, caller>>
+             /\ mon' = [mon EXCEPT !.sdheld = IdsOf(q), !.flushed = TRUE]
+             /\ qclosed' = FixClosed                           \* repair B: Flush() closes the queue under its lock
+             /\ UNCHANGED <<dropped, trig, kill, stopped, input, inputMu, xstopped, closed, resp, eidx, plen, cur, serr, caller, stopDone>>
 SELock(s) == /\ pc[s] = "elock" /\ inputMu = "none"
              /\ IF xstopped THEN (Go(s, "xshut") /\ UNCHANGED inputMu) ELSE (Go(s, "esend") /\ inputMu' = s)
-             /\ UNCHANGED <<q, dropped, trig, kill, stopped, input, xstopped, closed, resp, eidx, plen, cur, sbatch, serr, caller, mon>>
+             /\ UNCHANGED <<q, dropped, trig, kill, stopped, input, xstopped, closed, resp, eidx, plen, cur, sbatch, serr, caller, qclosed, stopDone, mon>>
 SESend(s) == /\ pc[s] = "esend" /\ Len(input) < BufSize
              /\ input' = Append(input, [recs |-> sbatch, resp |-> s]) /\ sbatch' = <<>> /\ inputMu' = "none" /\ Go(s, "ewait")
-             /\ UNCHANGED <<q, dropped, trig, kill, stopped, xstopped, closed, resp, eidx, plen, cur, serr, caller, mon>>
+             /\ UNCHANGED <<q, dropped, trig, kill, stopped, xstopped, closed, resp, eidx, plen, cur, serr, caller, qclosed, stopDone, mon>>
 SEWait(s) == /\ pc[s] = "ewait" /\ resp[s] # "none"
              /\ serr' = (IF resp[s] = "err" THEN "err" ELSE "") /\ Go(s, "xshut")
-             /\ UNCHANGED <<q, dropped, trig, kill, stopped, input, inputMu, xstopped, closed, resp, eidx, plen, cur, sbatch, caller, mon>>
+             /\ UNCHANGED <<q, dropped, trig, kill, stopped, input, inputMu, xstopped, closed, resp, eidx, plen, cur, sbatch, caller, qclosed, stopDone, mon>>
 (* bufferExporter.Shutdown: swap stopped; lock inputMu; close(input); wait for the export goroutine; *)
 (* user exporter Shutdown; unlock                                                                     *)
 SXSwap(s) == /\ pc[s] = "xshut" /\ xstopped' = TRUE /\ Go(s, IF xstopped THEN "ret" ELSE "xlock")
-             /\ UNCHANGED <<q, dropped, trig, kill, stopped, input, inputMu, closed, resp, eidx, plen, cur, sbatch, serr, caller, mon>>
+             /\ stopDone' = (stopDone \/ (FixStopDone /\ xstopped))
+             /\ UNCHANGED <<q, dropped, trig, kill, stopped, input, inputMu, closed, resp, eidx, plen, cur, sbatch, serr, caller, qclosed, mon>>
 SXLock(s) == /\ pc[s] = "xlock" /\ inputMu = "none" /\ inputMu' = s /\ closed' = TRUE /\ Go(s, "xwait")
-             /\ UNCHANGED <<q, dropped, trig, kill, stopped, input, xstopped, resp, eidx, plen, cur, sbatch, serr, caller, mon>>
+             /\ UNCHANGED <<q, dropped, trig, kill, stopped, input, xstopped, resp, eidx, plen, cur, sbatch, serr, caller, qclosed, stopDone, mon>>
 SXWait(s) == /\ pc[s] = "xwait" /\ pc["x"] = "done" /\ inputMu' = "none" /\ Go(s, "ret")
-             /\ UNCHANGED <<q, dropped, trig, kill, stopped, input, xstopped, closed, resp, eidx, plen, cur, sbatch, serr, caller, mon>>
+             /\ stopDone' = FixStopDone                        \* repair A: close(stopDone) as the last thing Shutdown does
+             /\ UNCHANGED <<q, dropped, trig, kill, stopped, input, xstopped, closed, resp, eidx, plen, cur, sbatch, serr, caller, qclosed, mon>>
+(* repair A only: a Shutdown that found `stopped` set waits for the one doing the work *)
+SWaitDone(s) == /\ pc[s] = "sdwait" /\ stopDone /\ Go(s, "ret") /\ UNCHANGED <<proto, mon>>
 SRet(s) == /\ pc[s] = "ret" /\ Go(s, "done")
            /\ LET err == IF mon.early[s] = "no" THEN serr ELSE "" IN
               mon' = [mon EXCEPT
@@ -249,20 +284,20 @@ SRet(s) == /\ pc[s] = "ret" /\ Go(s, "done")
            /\ UNCHANGED proto
 
 Next == \/ \E g \in Emitters : ECall(g) \/ ECheck(g) \/ EEnqueue(g) \/ ETrigger(g) \/ ERet(g)
-        \/ PollTick \/ PollTrig \/ PollKill \/ PollReady \/ PollDequeue \/ PollRetrig
-        \/ XRecv \/ XDone \/ XBegin \/ XEnd(TRUE, FALSE) \/ (Faults /\ (XEnd(FALSE, TRUE) \/ XEnd(FALSE, FALSE)))
-        \/ \E f \in Flushers : FCall(f) \/ FCheck(f) \/ FDequeue(f) \/ FMLock(f) \/ FMSend(f) \/ FMWait(f) \/ FRet(f)
+        \/ PollTick \/ PollTrig \/ PollKill \/ PollDropped \/ PollReady \/ PollLen \/ PollDequeue \/ PollRetrig
+        \/ XRecv \/ XDone \/ XBegin \/ XEnd(TRUE, FALSE) \/ (Faults /\ (XEnd(FALSE, FALSE) \/ (ChunkAbort /\ XEnd(FALSE, TRUE))))
+        \/ \E f \in Flushers : FCall(f) \/ FCheck(f) \/ FDequeue(f) \/ FMLock(f) \/ FMSend(f) \/ FMWait(f) \/ FWaitDone(f) \/ FRet(f)
         \/ \E s \in Stoppers : SCall(s) \/ SSwap(s) \/ SKill(s) \/ SWaitPoll(s) \/ SFlush(s) \/ SELock(s) \/ SESend(s)
-                               \/ SEWait(s) \/ SXSwap(s) \/ SXLock(s) \/ SXWait(s) \/ SRet(s)
+                               \/ SEWait(s) \/ SXSwap(s) \/ SXLock(s) \/ SXWait(s) \/ SWaitDone(s) \/ SRet(s)
 
 (* Go's select chooses at random among the ready cases: a closed pollKill is taken eventually even if the ticker *)
 (* keeps firing (strong fairness); everything else only needs weak fairness.                                      *)
-Fairness == /\ WF_vars(PollTrig \/ PollReady \/ PollDequeue \/ PollRetrig) /\ SF_vars(PollKill)
+Fairness == /\ WF_vars(PollTrig \/ PollDropped \/ PollReady \/ PollLen \/ PollDequeue \/ PollRetrig) /\ SF_vars(PollKill)
             /\ WF_vars(XRecv \/ XDone \/ XBegin \/ XEnd(TRUE, FALSE))
             /\ \A g \in Emitters : WF_vars(ECheck(g) \/ EEnqueue(g) \/ ETrigger(g) \/ ERet(g))
-            /\ \A f \in Flushers : WF_vars(FCheck(f) \/ FMLock(f) \/ FMSend(f) \/ FMWait(f) \/ FRet(f)) /\ SF_vars(FDequeue(f))
+            /\ \A f \in Flushers : WF_vars(FCheck(f) \/ FMLock(f) \/ FMSend(f) \/ FMWait(f) \/ FWaitDone(f) \/ FRet(f)) /\ SF_vars(FDequeue(f))
             /\ \A s \in Stoppers : WF_vars(SSwap(s) \/ SKill(s) \/ SWaitPoll(s) \/ SFlush(s) \/ SELock(s) \/ SESend(s)
-                                           \/ SEWait(s) \/ SXSwap(s) \/ SXLock(s) \/ SXWait(s) \/ SRet(s))
+                                           \/ SEWait(s) \/ SXSwap(s) \/ SXLock(s) \/ SXWait(s) \/ SWaitDone(s) \/ SRet(s))
 Spec == Init /\ [][Next]_vars
 FairSpec == Spec /\ Fairness
 
@@ -288,6 +323,15 @@ Known == {"D1-flush-during-shutdown", "D1-shutdown-during-shutdown", "D2-chunk-a
           "D3-flush-exporter-stopped", "D4-enqueue-after-final-flush", "D5-flush-overtakes-final-flush",
           "D1-export-after-early-shutdown-return", "D6-final-flush-overtaken"}
 Contract == mon.bad \subseteq Admit
+(* Sketched repairs (constant switches, model only -- nothing of this is in /repo):                           *)
+(*  A  FixStopDone: a `stopDone` channel closed by the Shutdown that won the `stopped` swap as its last step;  *)
+(*     ForceFlush and Shutdown calls that see `stopped` set -- at their entry check, on errStopped from the    *)
+(*     buffer, or when ForceFlush looks once more after its marker was answered -- wait for it (or their ctx)  *)
+(*     instead of returning nil at once.                                                                      *)
+(*  B  FixClosed: q.Flush() sets a `closed` flag under the queue lock; Enqueue refuses records once it is set  *)
+(*     (the record is ignored knowingly, like one that found `stopped` set).                                  *)
+(* checks/c06.py lets TLC decide which named deviations each removes (Admit = Known \ Removed must pass, and  *)
+(* every deviation outside Removed must still be found) and whether every call still returns (Termination).  *)
 (* every overwrite is counted: warned total + not yet reported = number of overwritten records *)
 DroppedCounted == mon.logged + dropped = Cardinality(mon.overwritten)
 MuOK == inputMu \in Callers \cup {"none"} /\ (closed => xstopped)
